@@ -638,9 +638,10 @@ def check_property(ctx, pid, tier, seed, replay=None):
 
     if tier == 'thorough' and not violations and os.environ.get('VERIF_NO_COQCHK') != '1':
         # independent re-check of the compiled property library and everything it depends on
-        mod = 'Krp.' + spec['props_file'][:-2].replace('/', '.')
+        mods = ['Krp.' + f[:-2].replace('/', '.') for f in [spec['props_file']] + list(spec.get('extra_props_files', []))]
+        mod = ' '.join(mods)
         t1 = time.time()
-        rc, out = run(['coqchk', '-o', '-silent', '-Q', ctx.coq, 'Krp', mod], cwd=ctx.coq, timeout=7200)
+        rc, out = run(['coqchk', '-o', '-silent', '-Q', ctx.coq, 'Krp'] + mods, cwd=ctx.coq, timeout=7200)
         cov['coqchk_s'] = round(time.time() - t1, 1)
         summary = out[out.find('CONTEXT SUMMARY'):] if 'CONTEXT SUMMARY' in out else out[-1500:]
         cov['coqchk'] = ' '.join(summary.split())[:600]
@@ -753,9 +754,10 @@ def check_property(ctx, pid, tier, seed, replay=None):
         all_exp = []
         st = {'histories': 0, 'ops': 0, 'ok': 0, 'err': 0, 'first_diffs': 0, 'relevant_diffs': 0,
               'opkinds': {}, 'monitor_checks': 0}
-        diff_only = (sname == SYNTH)
+        diff_only = (sname == SYNTH) or sname in ('scenario:' + x for x in P.DIFF_ONLY_SCENARIOS)
         if diff_only:
             st['monitors'] = 'not run (synthesised start states)'
+        if sname == SYNTH:
             st['synthesiser'] = synth_statistics(trs)
         for (opsf, robs, mobs) in trs:
             probes = (robs + '.probe') if (spec.get('probe') and not diff_only and os.path.exists(robs + '.probe')) else None
